@@ -74,8 +74,10 @@ TEXT = {
               "kind and direction, addition, removal, bank transfer incl. donations, parameter change leaves X*Y/L^2 of every pool no smaller), "
               "k_history (lift to every sequence of accepted or rejected operations by induction, with the well-formedness invariant wf_step), "
               "remove_le_prorata, add_then_remove_le, roundtrip_le, on the code's exact integer formulas (256-bit guards included). "
-              "The model is tied to the code by the step-wise correspondence (4000 ops quick, 8x40000 thorough on the real message server) and the "
-              "regenerated formulas."),
+              "The model is tied to the code by the step-wise correspondence (12000 ops quick, 8x40000 thorough on the real message server, "
+              "one message in fifteen followed by a failing sibling of the same transaction) and the regenerated formulas. The executable "
+              "predicates evaluated on the implementation (k_nondecreasing, remove_le_prorata) are proved of the model's transitions "
+              "(k_step_monitor, remove_prorata_monitor)."),
         note=COMMON_NOTE + "Assumptions stated as hypotheses: EnvOK (pool-address hash has no collisions among the pool-token denominations "
              "in play and never equals the module / fee-collector account), signers are not escrow addresses."),
     "C02": dict(
@@ -86,7 +88,9 @@ TEXT = {
               "to the fee collector and a burn of the rest), rejected_unchanged (every rejection leaves the whole state as it was). "
               "All derived from one generic theorem about bank effect lists (applyAll_flow / group_flow). The correspondence diffs the "
               "WHOLE bank ledger and supply of the real application before/after every message. The SDK's own registered invariants "
-              "(bank total supply etc.) belong to trusted SDK modules and are not proved."),
+              "(bank total supply etc.) belong to trusted SDK modules and are not proved (they are evaluated on the real state during the run). "
+              "later_failure_unchanged: a transaction containing a failing message leaves the state as it was whatever its earlier messages did "
+              "(exercised on the implementation by later=1 operations). rejected_unchanged_monitor, swap_conserves_monitor link the executable predicates."),
         note=COMMON_NOTE + "The coinswap module account is assumed not to be payer, recipient or escrow (it is a blocked module account)."),
     "C08": dict(
         text=("Proved for the model for all inputs: deadline_respected (success implies block time not past the deadline, incl. the "
@@ -94,7 +98,10 @@ TEXT = {
               "remove_bounds (user bounds honoured; executed amounts are the exact constant-product-with-fee / pro-rata values rounded "
               "one unit at most and always in the pool's favour, stated cross-multiplied on the code's integer formulas; the response "
               "equals the coins actually moved), sell_bound_tight (bound just met accepted / just missed rejected). The correspondence "
-              "generates bounds from the implementation's own quote (quote-1, quote, quote+1) and compares responses."),
+              "generates bounds from the implementation's own quote (quote-1, quote, quote+1) and compares responses. swap_delivered: the stated "
+              "recipient's balance rises by exactly what the pool paid and the payer's falls by exactly what the pool received. The executable "
+              "predicates evaluated on the implementation are proved of the model's transitions: deadline_monitor, swap_delivered_monitor, "
+              "swap_bounds_rounding_monitor, remove_bounds_monitor (add_bounds is not linked yet)."),
         note=COMMON_NOTE),
     "C09": dict(
         text=("Proved for the model for every parameter setting in force at the moment of the operation: swap_caps (exactly one standard "
@@ -102,6 +109,7 @@ TEXT = {
               "its per-swap maximum), add_caps (whitelisted counter-asset, deposit at most the per-pool cap and at most the room under it "
               "for a live pool), no_module_recipient / blocked_any_form (every spelling of a blocked recipient is rejected), "
               "pools_against_standard (invariant). Onboarding auto-swaps go through the same trade function (see C11). The correspondence "
-              "changes parameters under live pools and draws recipients from all module accounts in both bech32 cases."),
+              "changes parameters under live pools and draws recipients from all module accounts in both bech32 cases. swap_whitelist_cap_monitor / "
+              "no_module_recipient_monitor link the executable predicates for swaps to the theorems."),
         note=COMMON_NOTE),
 }
